@@ -41,6 +41,8 @@ type bprover struct {
 	why     string
 	inBound bool
 	repMemo map[ssa.Value]ssa.Value
+	// parity of len(parameter) established at every call site (a helper that walks its argument list in pairs)
+	entryPar map[string]int
 }
 
 func isSignedInt(t types.Type) bool {
@@ -451,8 +453,44 @@ func nonNegValue(v ssa.Value, seen map[ssa.Value]bool, depth int) bool {
 		return nonNegFunc(x.Call.StaticCallee(), depth+1)
 	case *ssa.UnOp:
 		if fa, ok := x.X.(*ssa.FieldAddr); ok && x.Op == token.MUL {
-			return sizeField(fa)
+			if sizeField(fa) {
+				return true
+			}
+			// a field of a local record that was assigned the result of a helper as a whole
+			if al, ok := fa.X.(*ssa.Alloc); ok && al.Referrers() != nil {
+				any := false
+				for _, r := range *al.Referrers() {
+					if st, ok := r.(*ssa.Store); ok && st.Addr == ssa.Value(al) {
+						srcs := structFieldSources(st.Val, fa.Field)
+						if len(srcs) == 0 {
+							return false
+						}
+						for _, sv := range srcs {
+							any = true
+							if !nonNegValue(sv, seen, depth+1) {
+								return false
+							}
+						}
+					}
+					if f2, ok := r.(*ssa.FieldAddr); ok && f2 != fa && f2.Field == fa.Field {
+						return false // the field is also written piecemeal: not handled
+					}
+				}
+				return any
+			}
 		}
+	case *ssa.Field:
+		// field k of a record returned by a first-party helper: every value the helper stores there
+		srcs := structFieldSources(x.X, x.Field)
+		if len(srcs) == 0 {
+			return false
+		}
+		for _, sv := range srcs {
+			if !nonNegValue(sv, seen, depth+1) {
+				return false
+			}
+		}
+		return true
 	}
 	return false
 }
@@ -600,6 +638,101 @@ func (p *bprover) defFacts(s *factSet, goal dfact) {
 					}
 					s.fs = append(s.fs, dfact{base, n, -add}) // len(result) >= len(base)+add
 					push(base)
+				} else if cf := x.Call.StaticCallee(); cf != nil && firstParty(cf) {
+					// a helper whose result has at least as many elements as one of its slice arguments (a map/convert helper)
+					for j, arg := range x.Call.Args {
+						if p.c.resultLenGE(cf, 0, j) {
+							l := p.lenOf(arg)
+							s.fs = append(s.fs, dfact{l.n, n, -l.k})
+							push(l.n)
+						}
+					}
+				}
+			case *ssa.UnOp:
+				// a slice field of a local record that a helper returned: sibling slice fields the helper filled in
+				// lockstep have the same length (ids/conns of one subscriber list)
+				fa, ok := x.X.(*ssa.FieldAddr)
+				if !ok || x.Op != token.MUL {
+					break
+				}
+				al, ok := fa.X.(*ssa.Alloc)
+				if !ok || al.Referrers() == nil {
+					break
+				}
+				var src ssa.Value
+				clean := true
+				for _, r := range *al.Referrers() {
+					switch y := r.(type) {
+					case *ssa.Store:
+						if y.Addr == ssa.Value(al) {
+							if src != nil {
+								clean = false
+							}
+							src = y.Val
+						}
+					case *ssa.FieldAddr:
+						if y.Referrers() != nil {
+							for _, rr := range *y.Referrers() {
+								if st, ok := rr.(*ssa.Store); ok && st.Addr == ssa.Value(y) {
+									clean = false // the record is modified piecemeal here
+								}
+							}
+						}
+					}
+				}
+				if !clean || src == nil {
+					break
+				}
+				var call *ssa.Call
+				idx := 0
+				switch y := src.(type) {
+				case *ssa.Call:
+					call = y
+				case *ssa.Extract:
+					if c2, ok := y.Tuple.(*ssa.Call); ok {
+						call, idx = c2, y.Index
+					}
+				}
+				if call == nil {
+					break
+				}
+				cf := call.Call.StaticCallee()
+				st, ok := fa.X.Type().Underlying().(*types.Pointer).Elem().Underlying().(*types.Struct)
+				if !ok || cf == nil {
+					break
+				}
+				for k2 := 0; k2 < st.NumFields(); k2++ {
+					if k2 == fa.Field {
+						continue
+					}
+					if _, isSl := st.Field(k2).Type().Underlying().(*types.Slice); !isSl {
+						continue
+					}
+					if lockstepFields(cf, idx, fa.Field, k2) {
+						other := "len:" + canon(fa.X) + "." + st.Field(k2).Name()
+						s.fs = append(s.fs, dfact{n, other, 0}, dfact{other, n, 0})
+						push(other)
+					}
+				}
+			case *ssa.Phi:
+				// a slice that grows by exactly one element per iteration next to a counter that grows by one:
+				// len(slice) - counter is constant
+				if !isLoopHeaderBlock(x.Block()) {
+					break
+				}
+				for _, other := range x.Block().Instrs {
+					y, ok := other.(*ssa.Phi)
+					if !ok {
+						break
+					}
+					if !isIntType(y.Type()) {
+						continue
+					}
+					if d, ok := lockstepLenPhi(x, y); ok {
+						yn := p.lin(y)
+						s.fs = append(s.fs, dfact{n, yn.n, d + yn.k}, dfact{yn.n, n, -d - yn.k})
+						push(yn.n)
+					}
 				}
 			case *ssa.Convert:
 				// []byte(string) / string([]byte): same length
@@ -745,6 +878,9 @@ func (p *bprover) parityOf(n string, s *factSet, seen map[string]bool) (int, boo
 		return 0, true
 	}
 	if v, ok := s.par[n]; ok {
+		return v, true
+	}
+	if v, ok := p.entryPar[n]; ok {
 		return v, true
 	}
 	if seen[n] {
@@ -1185,7 +1321,146 @@ func (c *C) newProver(fn *ssa.Function) *bprover {
 	for _, f := range c.callSitePre(fn) {
 		p.entry = append(p.entry, f)
 	}
+	p.entryPar = c.callSiteParity(fn)
+	// a closure: what the enclosing function knows, where the closure is created, about the length of a slice or
+	// string variable the closure captures (and that is assigned only once) holds inside the closure too
+	if par := fn.Parent(); par != nil && closureFactDepth < 2 {
+		closureFactDepth++
+		for _, b := range par.Blocks {
+			for _, in := range b.Instrs {
+				mc, ok := in.(*ssa.MakeClosure)
+				if !ok || mc.Fn != ssa.Value(fn) {
+					continue
+				}
+				for i, bnd := range mc.Bindings {
+					al, ok := bnd.(*ssa.Alloc)
+					if !ok || i >= len(fn.FreeVars) {
+						continue
+					}
+					sv := singleStore(al)
+					if sv == nil {
+						continue
+					}
+					isSeq := false
+					switch t := sv.Type().Underlying().(type) {
+					case *types.Slice:
+						isSeq = true
+					case *types.Basic:
+						isSeq = t.Info()&types.IsString != 0
+					}
+					if !isSeq {
+						continue
+					}
+					pc := c.newProver(par)
+					ln := lenNode(sv)
+					pc.vals[ln] = sv
+					for _, k := range []int64{6, 5, 4, 3, 2, 1} {
+						if pc.ProveLE(lt{"0", k}, lt{ln, 0}, 0, mc) {
+							// inside the closure the variable is read through its cell: *free
+							var load ssa.Value
+							if fv := fn.FreeVars[i]; fv.Referrers() != nil {
+								for _, r := range *fv.Referrers() {
+									if u, ok := r.(*ssa.UnOp); ok && u.Op == token.MUL {
+										load = u
+										break
+									}
+								}
+							}
+							if load != nil {
+								n := lenNode(load)
+								p.vals[n] = load
+								p.entry = append(p.entry, dfact{"0", n, -k})
+							}
+							break
+						}
+					}
+				}
+			}
+		}
+		closureFactDepth--
+	}
 	return p
+}
+
+var closureFactDepth int
+
+// callSiteParity: for each slice/string parameter of a non-executor first-party function, the parity of its length when
+// every static call site passes a value whose length has that parity at the call (e.g. cmd[3:] after len(cmd)%2 == 1).
+func (c *C) callSiteParity(fn *ssa.Function) map[string]int {
+	if c.parMemo == nil {
+		c.parMemo = map[*ssa.Function]map[string]int{}
+		c.parBusy = map[*ssa.Function]bool{}
+	}
+	if r, ok := c.parMemo[fn]; ok {
+		return r
+	}
+	if c.parBusy[fn] || fn.Parent() != nil {
+		return nil
+	}
+	if _, isExec := c.Facts.ExecNames[fn]; isExec {
+		return nil
+	}
+	c.parBusy[fn] = true
+	defer func() { c.parBusy[fn] = false }()
+	var sites []*ssa.Call
+	addrTaken := false
+	for _, g := range c.P.allFuncs(firstPartyPkgs...) {
+		for _, b := range g.Blocks {
+			for _, in := range b.Instrs {
+				if call, ok := in.(*ssa.Call); ok && callee(call) == fn {
+					sites = append(sites, call)
+					continue
+				}
+				var rands [10]*ssa.Value
+				for _, op := range in.Operands(rands[:0]) {
+					if *op == ssa.Value(fn) {
+						if ci, ok := in.(ssa.CallInstruction); !ok || ci.Common().Value != *op {
+							addrTaken = true
+						}
+					}
+				}
+			}
+		}
+	}
+	out := map[string]int{}
+	if len(sites) > 0 && !addrTaken {
+		for i, prm := range fn.Params {
+			isSeq := false
+			switch t := prm.Type().Underlying().(type) {
+			case *types.Slice:
+				isSeq = true
+			case *types.Basic:
+				isSeq = t.Info()&types.IsString != 0
+			}
+			if !isSeq {
+				continue
+			}
+			res, okAll := -1, true
+			for _, call := range sites {
+				if i >= len(call.Call.Args) {
+					okAll = false
+					break
+				}
+				pc := c.newProver(call.Parent())
+				arg := call.Call.Args[i]
+				ln := lenNode(arg)
+				pc.vals[ln] = arg
+				fs := &factSet{par: map[string]int{}}
+				pc.chainFacts(call.Block(), fs)
+				pv, ok := pc.parityOf(ln, fs, map[string]bool{})
+				if !ok || pv < 0 || (res >= 0 && res != pv) {
+					okAll = false
+					break
+				}
+				res = pv
+			}
+			if okAll && res >= 0 {
+				out[lenNode(prm)] = res
+			}
+		}
+	}
+	c.parMemo[fn] = out
+	return out
 }
 
 // callSitePre: lower bounds on len(param) that hold at every static call site of a first-party helper.
@@ -2063,4 +2338,218 @@ func (c *C) ctxResultLeLen(call *ssa.Call, k, j int) bool {
 	}
 	c.ctxMemo[key] = res && any
 	return res && any
+}
+
+func isLoopHeaderBlock(b *ssa.BasicBlock) bool {
+	for _, p := range b.Preds {
+		if b.Dominates(p) {
+			return true
+		}
+	}
+	return false
+}
+
+// lockstepLenPhi: x is a slice phi and y an int phi of one loop header; from outside the loop x is empty (make with
+// constant length 0, nil) or of constant length and y a constant; on every back edge x is append(x, one element) and y is
+// y+1. Then len(x) - y keeps its initial value. Returns that difference.
+func lockstepLenPhi(x, y *ssa.Phi) (int64, bool) {
+	b := x.Block()
+	if y.Block() != b || len(x.Edges) != len(y.Edges) {
+		return 0, false
+	}
+	d, have, back := int64(0), false, false
+	for i, pred := range b.Preds {
+		if b.Dominates(pred) {
+			ap, ok := isAppend(x.Edges[i])
+			if !ok || ap.Call.Args[0] != ssa.Value(x) {
+				return 0, false
+			}
+			elems, ok := sliceLiteralElems(ap.Call.Args[1])
+			if !ok || len(elems) != 1 {
+				return 0, false
+			}
+			bo, ok := y.Edges[i].(*ssa.BinOp)
+			if !ok || bo.Op != token.ADD || bo.X != ssa.Value(y) {
+				return 0, false
+			}
+			if k, ok := constInt(bo.Y); !ok || k != 1 {
+				return 0, false
+			}
+			back = true
+			continue
+		}
+		x0 := int64(-1)
+		switch e := x.Edges[i].(type) {
+		case *ssa.MakeSlice:
+			if k, ok := constInt(e.Len); ok {
+				x0 = k
+			}
+		case *ssa.Const:
+			if e.IsNil() {
+				x0 = 0
+			}
+		}
+		y0, ok := constInt(y.Edges[i])
+		if x0 < 0 || !ok {
+			return 0, false
+		}
+		if have && x0-y0 != d {
+			return 0, false
+		}
+		d, have = x0-y0, true
+	}
+	return d, have && back
+}
+
+// resultLenGE: every value fn returns as result k is a slice with at least len(param j) elements.
+func (c *C) resultLenGE(fn *ssa.Function, k, j int) bool {
+	if fn == nil || fn.Blocks == nil || j >= len(fn.Params) || calleeProofDepth >= 2 {
+		return false
+	}
+	if _, ok := fn.Params[j].Type().Underlying().(*types.Slice); !ok {
+		return false
+	}
+	r := fn.Signature.Results()
+	if k >= r.Len() {
+		return false
+	}
+	if _, ok := r.At(k).Type().Underlying().(*types.Slice); !ok {
+		return false
+	}
+	if c.rlgMemo == nil {
+		c.rlgMemo = map[string]int{}
+	}
+	key := fmt.Sprintf("%s|%d|%d", fn.String(), k, j)
+	switch c.rlgMemo[key] {
+	case 1:
+		return true
+	case 2, 3:
+		return false
+	}
+	c.rlgMemo[key] = 3
+	calleeProofDepth++
+	defer func() { calleeProofDepth-- }()
+	pr := c.newProver(fn)
+	res, any := true, false
+	for _, b := range fn.Blocks {
+		for _, in := range b.Instrs {
+			ret, ok := in.(*ssa.Return)
+			if !ok || len(ret.Results) <= k {
+				continue
+			}
+			for _, v := range retResults(ret)[k] {
+				any = true
+				if !pr.ProveLE(pr.lenOf(fn.Params[j]), pr.lenOf(v), 0, ret) {
+					res = false
+				}
+			}
+		}
+	}
+	if res && any {
+		c.rlgMemo[key] = 1
+		return true
+	}
+	c.rlgMemo[key] = 2
+	return false
+}
+
+
+// lockstepFields: fn returns (as result idx) a record it built locally whose slice fields k1 and k2 both start empty and
+// receive the same number of appended elements in every basic block: the two have equal length whatever path was taken.
+func lockstepFields(fn *ssa.Function, idx, k1, k2 int) bool {
+	if fn == nil || fn.Blocks == nil {
+		return false
+	}
+	any := false
+	for _, b := range fn.Blocks {
+		for _, in := range b.Instrs {
+			ret, ok := in.(*ssa.Return)
+			if !ok || len(ret.Results) <= idx {
+				continue
+			}
+			rr := retResults(ret)[idx]
+			if len(rr) != 1 {
+				return false
+			}
+			u, ok := rr[0].(*ssa.UnOp)
+			if !ok {
+				return false
+			}
+			al, ok := u.X.(*ssa.Alloc)
+			if !ok || al.Referrers() == nil {
+				return false
+			}
+			counts := map[int]map[*ssa.BasicBlock]int{k1: {}, k2: {}}
+			for _, r := range *al.Referrers() {
+				fa, ok := r.(*ssa.FieldAddr)
+				if !ok {
+					if _, isLoad := r.(*ssa.UnOp); isLoad {
+						continue
+					}
+					if _, isDbg := r.(*ssa.DebugRef); isDbg {
+						continue
+					}
+					return false
+				}
+				if fa.Field != k1 && fa.Field != k2 {
+					continue
+				}
+				if fa.Referrers() == nil {
+					continue
+				}
+				for _, rr2 := range *fa.Referrers() {
+					st, ok := rr2.(*ssa.Store)
+					if !ok {
+						if _, isLoad := rr2.(*ssa.UnOp); isLoad {
+							continue
+						}
+						if _, isDbg := rr2.(*ssa.DebugRef); isDbg {
+							continue
+						}
+						return false
+					}
+					switch v := st.Val.(type) {
+					case *ssa.MakeSlice:
+						if k, isK := constInt(v.Len); !isK || k != 0 {
+							return false
+						}
+					case *ssa.Slice:
+						if a2, isAl := v.X.(*ssa.Alloc); !isAl || a2.Comment != "makeslice" {
+							return false
+						}
+					case *ssa.Call:
+						ap, isAp := isAppend(v)
+						if !isAp {
+							return false
+						}
+						base, isLoad := ap.Call.Args[0].(*ssa.UnOp)
+						if !isLoad {
+							return false
+						}
+						bfa, isFA := base.X.(*ssa.FieldAddr)
+						if !isFA || bfa.X != ssa.Value(al) || bfa.Field != fa.Field {
+							return false
+						}
+						elems, isLit := sliceLiteralElems(ap.Call.Args[1])
+						if !isLit {
+							return false
+						}
+						counts[fa.Field][st.Block()] += len(elems)
+					default:
+						return false
+					}
+				}
+			}
+			if len(counts[k1]) != len(counts[k2]) {
+				return false
+			}
+			for blk, n := range counts[k1] {
+				if counts[k2][blk] != n {
+					return false
+				}
+			}
+			any = true
+		}
+	}
+	return any
 }
